@@ -1,6 +1,6 @@
 // This file implements functionality from FIPS 204 section 7.5 `NTT` and `invNTT`
 
-use crate::helpers::{full_reduce32, mont_reduce, ZETA_TABLE_MONT};
+use crate::helpers::{full_reduce32, mont_reduce, partial_reduce32, ZETA_TABLE_MONT};
 use crate::types::{R, T};
 use crate::Q;
 
@@ -100,7 +100,10 @@ pub(crate) fn inv_ntt<const KL: usize>(w_hat: &[T; KL]) -> [R; KL] {
     // 1: for j from 0 to 255 do
     // 2: w_j ← w_hat[j]
     // 3: end for
-    let mut w_out: [R; KL] = core::array::from_fn(|x| R(core::array::from_fn(|n| w_hat[x].0[n])));
+    // The inputs are unreduced sums of several products; reduce them on the way in so that the
+    // eight layers of additions below cannot exceed the i32 range for any input.
+    let mut w_out: [R; KL] =
+        core::array::from_fn(|x| R(core::array::from_fn(|n| partial_reduce32(w_hat[x].0[n]))));
     #[cfg(feature = "verif-hooks")]
     if crate::verif_hooks::tracing() {
         let a = crate::verif_hooks::max_abs(w_hat.iter().map(|p| &p.0));
